@@ -2382,6 +2382,29 @@ def rule_extentpin(text):
     return text, apps
 
 
+def rule_journalpos(text):
+    """DiskIO::{next_journal_position, journal_sector} (io.rs)"""
+    apps = []
+    ws = r"\s*"
+    table = [
+        (r"self" + ws + r"\." + ws + r"journal_generation" + ws + r"\." + ws + r"load\(" + ws + r"Ordering::\w+" + ws + r"\)", "self.journal_generation_load()", "R-atom", "load of the journal-generation atomic"),
+        (r"self" + ws + r"\." + ws + r"journal_slot" + ws + r"\." + ws + r"load\(" + ws + r"Ordering::\w+" + ws + r"\)", "self.journal_slot_load()", "R-atom", "load of the journal-slot atomic"),
+    ]
+    for pat, rep, rname, why in table:
+        n = 0
+        while n < 8:
+            n += 1
+            mm = re.search(pat, text)
+            if not mm:
+                break
+            new = mm.expand(rep)
+            if new == text[mm.start():mm.end()]:
+                break
+            apps.append(_app(rname, text, mm.start(), mm.end(), new, why))
+            text = text[:mm.start()] + new + text[mm.end():]
+    return text, apps
+
+
 def rule_wbshutdown(text):
     """WriteBuffer::{initiate_shutdown, finish_shutdown} (write_buffer.rs)"""
     apps = []
